@@ -109,6 +109,34 @@ class SymGen:
         return v
 
 
+class FilteredGen:
+    """(elt for x in seq if cond(x)) over a sequence of symbolic length: next() yields the element at the *first* position whose
+    filter holds, StopIteration when there is none (one-shot use, as in `next(<genexp>)`)"""
+
+    def __init__(self, seq, cond, elt):
+        self.seq, self.cond, self.elt = seq, cond, elt
+        self.used = False
+
+    def __vnext__(self):
+        e = cur()
+        if self.used:
+            raise Unsupported("second next() on a filtered symbolic generator")
+        self.used = True
+        n = self.seq.n
+        k = Num(z3.Int(e.uniq("first")))
+        ex = z3.Bool(e.uniq("some"))
+        rng = z3.And(k.t >= 0, k.t < to_z3(n))
+        ck = e.under(rng, lambda: zb(self.cond(self.seq.get(k))))
+        q = z3.Int(e.uniq("fq"))
+        rq = z3.And(q >= 0, q < to_z3(n))
+        cq = e.under(rq, lambda: zb(self.cond(self.seq.get(Num(q)))))
+        e.axiom(z3.Implies(ex, z3.And(rng, ck, z3.ForAll([q], z3.Implies(z3.And(rq, q < k.t), z3.Not(cq))))))
+        e.axiom(z3.Implies(z3.Not(ex), z3.ForAll([q], z3.Implies(rq, z3.Not(cq)))))
+        if e.branch(ex):
+            return self.elt(self.seq.get(k))
+        e.py_raise("StopIteration", "")
+
+
 class SymSet:
     def __init__(self, mem):
         self.mem = mem      # value -> truth
@@ -425,6 +453,11 @@ def _enumerate(seq, start=0):
 
 def _list(x=()):
     e = cur()
+    if isinstance(x, Arr) and x.ndim == 1 and not isinstance(x.shape[0], int):
+        # list(1-d array of symbolic length): a fresh mutable sequence of its elements (modelled as a fresh buffer)
+        c = A.fresh_copy(x)
+        c.is_list = True
+        return c
     s = e.as_iterable(x)
     if isinstance(s, SymSeq) and not isinstance(s.n, int):
         return SymSeq(s.n, s._get)
